@@ -197,6 +197,12 @@ def run_session(scn, sched, keep_sim=True, max_decisions=None, extra_setup=None)
             sim.count_fault('prelude.' + ((prelude.get('abort') or {}).get('kind') or 'completed'))
             from sim import parserec as _pr
             _pr.reset()
+            if not sched.get('interrupt_on_hang'):
+                # the operator who would have interrupted a hung prelude table has no business
+                # with the session that follows (found by the multi-seed soak: a prelude that
+                # never hung left the interrupt armed, and it fired -- by its patience deadline --
+                # in the middle of the judged session)
+                sim.interrupt_on_hang = None
         with server_mod.Server(ip_address=ADDR[0], port=ADDR[1], output_file_path=out_path,
                                board_settings=settings) as server:
             run.server = server
